@@ -19,7 +19,8 @@ import os, re, subprocess
 from . import core
 
 SKEL_THEOREMS = ["C07_lock_discipline", "C07_policy_before_data", "C07_handlers_do_not_reenter",
-                 "C07_blocking_send_under_locks_without_capacity"]
+                 "C07_blocking_send_under_locks_without_capacity", "C07_every_path_checked", "C07_no_lock_deadlock", "C07_no_data_race"]
+SKEL_THEOREMS_FULL = ["C07_every_path_checked_full", "C07_no_lock_deadlock_full", "C07_no_data_race_full"]
 
 
 def extra_problems(tier):
@@ -37,21 +38,36 @@ def extra_problems(tier):
             open(path, "w").write(p.stdout)
         nfun = p.stdout.count("\n  (\"")
         rc1, out1 = core.sh(["timeout", "300", "coqc", "-Q", core.COQ, "Xds", "-w", "none", path], cwd=core.COQ, timeout=330)
-        rc2, out2 = (1, "") if rc1 != 0 else core.sh(["timeout", "300", "coqc", "-Q", core.COQ, "Xds", "-w", "none", os.path.join(gen, "SkelTheorems.v")], cwd=core.COQ, timeout=330)
-    info = {"obligations": len(SKEL_THEOREMS), "discharged": 0, "theorems": SKEL_THEOREMS, "assumptions": {},
+        # the theorem files about the generated skeleton (tracked, compiled here because they depend on gen/SkelGen.v);
+        # path enumeration recurses deeply: unlimited stack
+        def thm(f, t):
+            return core.sh(["sh", "-c", "ulimit -s unlimited; exec timeout %d coqc -Q %s Xds -w none %s" % (t, core.COQ, os.path.join(core.COQ, "Properties", f))],
+                           cwd=core.COQ, timeout=t + 30)
+        rc2, out2 = (1, "") if rc1 != 0 else thm("C07Skel.v", 300)
+        names = list(SKEL_THEOREMS)
+        if tier == "thorough" and rc2 == 0:
+            names += SKEL_THEOREMS_FULL
+            rc3, out3 = thm("C07SkelFull.v", 900)
+            rc2, out2 = (rc3, out2 + out3)
+    info = {"obligations": len(names), "discharged": 0, "theorems": names, "assumptions": {},
             "info": {"translator": "tools/skel (go/ast) -> coq/gen/SkelGen.v", "functions_transcribed": nfun,
                      "irregular_constructs": p.stdout.count("Irregular "), "source_files": ["core/manager/manager.go", "core/manager/client.go",
                      "xdssuite/circuitbreak.go", "xdssuite/retry.go", "xdssuite/limiter.go"]}}
+    bad = core.scan_forbidden(["Properties/C07Skel.v", "Properties/C07SkelFull.v", "gen/SkelGen.v"])
+    if bad:
+        return [{"kind": "theorem", "what": "forbidden constructs in the skeleton theorem files", "forbidden": bad}], info
     if rc1 == 0 and rc2 == 0:
         closed = out2.count("Closed under the global context")
-        info["discharged"] = len(SKEL_THEOREMS)
-        for t in SKEL_THEOREMS:
-            info["assumptions"][t] = "Closed under the global context" if closed >= len(SKEL_THEOREMS) else out2[-300:]
-        return [], info
+        info["discharged"] = len(names)
+        for t in names:
+            info["assumptions"][t] = "Closed under the global context" if closed >= len(names) else out2[-300:]
+        if closed >= len(names):
+            return [], info
+        return [{"kind": "theorem", "what": "a theorem of coq/Properties/C07Skel.v depends on assumptions", "coqc": out2[-1200:]}], info
     # which function breaks which rule
     diag = core.coq_show("C07", tier, "From Xds Require Import Model.Base Model.Skel gen.SkelGen.",
                          "(filter (fun x => negb (v_all (sv (snd x))) || negb (sv_handler_first (snd x))) (map (fun f => (f, check_function true skel f)) entry_points), "
                          "check_policy_before_data skel, check_update_is_one_section skel, check_no_reentry skel, v_block (sv (check_all false skel)))", tag="skeldiag") if rc1 == 0 else out1[-800:]
-    return [{"kind": "theorem", "what": "the theorems of coq/gen/SkelTheorems.v about the lock skeleton regenerated from /repo no longer check "
+    return [{"kind": "theorem", "what": "the theorems of coq/Properties/C07Skel.v about the lock skeleton regenerated from /repo no longer check "
                                         "(lock order / lock-set / blocking under lock / handlers inside the write section / no re-entry)",
              "offending (function, verdict) pairs and the three structural checks": diag, "coqc": (out1 + out2)[-1200:]}], info
